@@ -12,7 +12,7 @@ func init() {
 	register(&propDef{
 		ID:          "C01",
 		Run:         ruleC01,
-		Explanation: "Decides that the code has no place through which a zone literal can reach the output unmodified other than the exemptions the property names (structural necessary condition of C01): (R1) the line gate covers COMMAND/QUERY/WRITE/'Slow query', the three command documents are dispatched under lookup/type guards only, and the command walker dispatches every zone key to a walker whose result is stored back under the same key; (R2) every store into an output container and every return of a walker is either sanitised or a raw pass-through justified by one of the guard classes J1-J10 (exempt table entry, field-name position holding a non-document, namespace position, '$'-prefixed string, shape mismatch, nil, selective mode, number/boolean with the flag off, in-place array fully overwritten); (R3) every walker loop covers the whole input container and never leaves an iteration early or without a store; (R4) Exempt/FieldName/Namespace typed table positions are confined to a reviewed allow-list, reconstructed by abstract interpretation of the initialisers; (R5) each redaction flag's variable is the argument of its setter, the setter stores into the global the walkers read, before any processing call; (R6) the remote address is replaced by a constant. NOT decided: that the lookup routes every grammar position to the intended table entry, JSON escaping, the grammar coverage of the tables.",
+		Explanation: "Decides that the code has no place through which a zone literal can reach the output unmodified other than the exemptions the property names (structural necessary condition of C01): (R1) the line gate covers COMMAND/QUERY/WRITE/'Slow query', the three command documents are dispatched under lookup/type guards only, and the command walker dispatches every zone key to a walker whose result is stored back under the same key; (R2) every store into an output container and every return of a walker is either sanitised or a raw pass-through justified by one of the guard classes J1-J10 (exempt table entry, field-name position holding a non-document, namespace position, '$'-prefixed string, shape mismatch, nil, selective mode, number/boolean with the flag off, in-place array fully overwritten); (R3) every walker loop covers the whole input container and never leaves an iteration early or without a store; (R4) Exempt/FieldName/Namespace typed table positions are confined to a reviewed allow-list, reconstructed by abstract interpretation of the initialisers; (R5) each redaction flag's variable is the argument of its setter, the setter stores into the global the walkers read, before any processing call; (R6) the remote address is replaced by a constant. R4 also: a table asked about the last key alone has only '$'-prefixed keys or is consulted under a stage-kind parameter, and the search-stage positions holding user-shaped documents ($vectorSearch.filter, moreLikeThis.like) are typed so that every type dispatch of the stage walker has an arm for them that passes constant false for that parameter. NOT decided: that the lookup routes every grammar position to the intended table entry, JSON escaping, the grammar coverage of the tables.",
 		RuleText:    "obligations = gate disjuncts, dispatch sites, zone keys, every sink instruction of the walker functions (guards computed from dominating branch edges, short-circuit phis and disjunctive joins), walker loops (path enumeration with store counting), table entries, flag->setter->global chains",
 	})
 }
@@ -43,6 +43,7 @@ func ruleC01(c *Ctx, r *Report) {
 	c01Sinks(c, r, p)
 	c01Loops(c, r, p)
 	tablePolicyRule(c, r, "C01-R4")
+	lastKeyLookupRule(c, r, "C01-R4")
 	c01FlagWiring(c, r, an)
 	c01Remote(c, r, p)
 }
@@ -559,5 +560,202 @@ func c01Remote(c *Ctx, r *Report, p *Prov) {
 	})
 	if !found {
 		r.Bad("C01-R6", p.Root.Name()+":set(remote)", c.Pos(p.Root.Pos()), "attr.remote is never replaced")
+	}
+}
+
+// userDocumentPositions: the positions inside the Atlas Search tables whose value is a
+// document (or an array of documents) of the collection's own shape - keys are user field
+// names, not search syntax. Confirmed against the Atlas Search / Vector Search reference:
+// the MQL pre-filter of $vectorSearch and the example documents of moreLikeThis. (Every other
+// document-valued position holds search operators, GeoJSON or option documents.)
+var userDocumentPositions = [][]string{
+	{"SearchAggregationOperators", "$vectorSearch", "filter"},
+	{"SearchOperators", "moreLikeThis", "like"},
+}
+
+// lastKeyLookupRule: a table that is asked about the last key of the path alone - no
+// parent context - classifies every key of that spelling, at any depth. Where such a
+// vocabulary has keys without '$', a user field of the same name is taken for the operator
+// (numBuckets -> Exempt; text / range / near -> their score, fuzzy, slop ... members Exempt).
+// So the positions that hold user-shaped documents must be typed with an operator type
+// whose arm in the stage walker leaves the vocabulary: every walker it calls receives the
+// constant false for the parameter that enables the vocabulary lookup.
+func lastKeyLookupRule(c *Ctx, r *Report, rule string) {
+	p := c.prov()
+	t := c.reconstructTables()
+	if !t.requireResolved(r, rule) {
+		return
+	}
+	var fns []*ssa.Function
+	for f := range p.Zone {
+		fns = append(fns, f)
+	}
+	sort.Slice(fns, func(i, j int) bool { return fns[i].Name() < fns[j].Name() })
+	// 1. vocabulary lookups and the parameter that enables them
+	flags := map[*ssa.Parameter]bool{}
+	var vocab []string
+	for _, f := range fns {
+		for _, call := range callsIn(f, func(k string, _ *ssa.Call) bool { return k == omMethod("Get") }) {
+			if len(call.Call.Args) < 2 || pathPosition(call.Call.Args[1]) != "last" {
+				continue
+			}
+			ld, ok := call.Call.Args[0].(*ssa.UnOp)
+			if !ok {
+				continue
+			}
+			g, ok := ld.X.(*ssa.Global)
+			if !ok {
+				continue
+			}
+			obj := t.Globals[g.Name()]
+			if obj == nil {
+				r.Undecided(rule, fmt.Sprintf("%s:last-key-lookup(%s)", f.Name(), g.Name()), c.InstrPos(call), "table not reconstructed")
+				continue
+			}
+			nBare := 0
+			for _, k := range obj.Keys {
+				if !strings.HasPrefix(k, "$") {
+					nBare++
+				}
+			}
+			if nBare == 0 {
+				r.OK(rule, fmt.Sprintf("%s:last-key-lookup(%s)", f.Name(), g.Name()), c.InstrPos(call), fmt.Sprintf("%d top-level keys, all '$'-prefixed: no user field can have the spelling of one", len(obj.Keys)))
+				continue
+			}
+			var en []*ssa.Parameter
+			for _, a := range p.atomsAt(call.Block()) {
+				if a.Kind == "param" && a.Pol {
+					if prm, ok := a.Src.(*ssa.Parameter); ok {
+						en = append(en, prm)
+					}
+				}
+			}
+			if len(en) == 0 {
+				r.Bad(rule, fmt.Sprintf("%s:last-key-lookup(%s)", f.Name(), g.Name()), c.InstrPos(call),
+					fmt.Sprintf("%s (%d keys without '$') is asked about the last key alone on every call, whatever the position: user fields of those names are taken for operators", g.Name(), nBare))
+				continue
+			}
+			for _, prm := range en {
+				flags[prm] = true
+			}
+			vocab = append(vocab, fmt.Sprintf("%s in %s under %s", g.Name(), f.Name(), en[0].Name()))
+			r.OK(rule, fmt.Sprintf("%s:last-key-lookup(%s)", f.Name(), g.Name()), c.InstrPos(call), fmt.Sprintf("%d keys without '$'; consulted only under parameter %s", nBare, en[0].Name()))
+		}
+	}
+	r.Analysed["vocabulary_lookups_by_last_key"] = vocab
+	// 2. parameters that are handed on as such a parameter
+	for changed := true; changed; {
+		changed = false
+		for _, f := range fns {
+			allInstrs(f, func(i ssa.Instruction) {
+				cc := callCommonOf(i)
+				if cc == nil {
+					return
+				}
+				g := c.staticPkgCallee(cc)
+				if g == nil {
+					return
+				}
+				for k, a := range cc.Args {
+					if k < len(g.Params) && flags[g.Params[k]] {
+						if q, ok := a.(*ssa.Parameter); ok && !flags[q] {
+							flags[q] = true
+							changed = true
+						}
+					}
+				}
+			})
+		}
+	}
+	if len(flags) == 0 {
+		return
+	}
+	sw := c.stageWalkerFn()
+	if sw == nil {
+		r.Undecided(rule, "<stage-walker>", "-", "stage walker not found")
+		return
+	}
+	// 3. the listed positions
+	for _, pos := range userDocumentPositions {
+		name := pos[0] + ":" + strings.Join(pos[1:], ".")
+		construct := "table:" + name + ":user-document-position"
+		v, ok := t.Lookup(pos[0], pos[1:]...)
+		if !ok || v.Kind != "leaf" {
+			r.Trivial(rule, construct, "src/operators.go", "position absent from the tables (unknown keys below the stage are walked as data)")
+			continue
+		}
+		typ := t.LeafName(v)
+		// the arm of the stage walker for this type
+		nCalls, nArm := 0, 0
+		var bad []string
+		for _, b := range sw.Blocks {
+			inArm := false
+			for _, a := range p.atomsAt(b) {
+				if a.Kind == "tbl" && a.Pol && a.Name == typ {
+					inArm = true
+				}
+			}
+			if !inArm {
+				continue
+			}
+			nArm++
+			for _, in := range b.Instrs {
+				cc := callCommonOf(in)
+				if cc == nil {
+					continue
+				}
+				g := c.staticPkgCallee(cc)
+				if g == nil || !p.Zone[g] {
+					continue
+				}
+				for k, a := range cc.Args {
+					if k < len(g.Params) && flags[g.Params[k]] {
+						nCalls++
+						if cst, ok := a.(*ssa.Const); !ok || cst.Value == nil || cst.Value.String() != "false" {
+							bad = append(bad, fmt.Sprintf("%s: %s receives %s for %s", c.InstrPos(in), g.Name(), describeArg(a), g.Params[k].Name()))
+						}
+					}
+				}
+			}
+		}
+		// every table-type dispatch of the stage walker (the typed entry of the key itself, the
+		// typed members of a stage's own sub-map) needs the arm
+		subjects := map[ssa.Value]map[string]bool{}
+		for _, b := range sw.Blocks {
+			for _, a := range p.atomsAt(b) {
+				if a.Kind == "tbl" && a.Pol && a.X != nil {
+					if subjects[a.X] == nil {
+						subjects[a.X] = map[string]bool{}
+					}
+					subjects[a.X][a.Name] = true
+				}
+			}
+		}
+		nDispatch := 0
+		for x, names := range subjects {
+			if len(names) < 2 {
+				continue
+			}
+			nDispatch++
+			if !names[typ] {
+				pos := "-"
+				if in, ok := x.(ssa.Instruction); ok {
+					pos = c.InstrPos(in)
+				}
+				bad = append(bad, fmt.Sprintf("the type dispatch on %s at %s has no arm for %s: there the document is walked with the search vocabulary", x.Name(), pos, typ))
+			}
+		}
+		sort.Strings(bad)
+		r.Analysed["stage_walker_type_dispatches"] = nDispatch
+		switch {
+		case nArm == 0:
+			r.Bad(rule, construct, "src/operators.go", fmt.Sprintf("%s is typed %s, which has no arm of its own in the stage walker: the document is walked with the search vocabulary, so a user field called numBuckets, text, range, near ... is taken for that operator and its value (or its members score, fuzzy, slop ...) is kept in clear", name, typ))
+		case len(bad) > 0:
+			r.Bad(rule, construct, "src/operators.go", fmt.Sprintf("%s is typed %s, whose arm keeps the search vocabulary switched on: %s", name, typ, strings.Join(bad, "; ")))
+		case nCalls == 0:
+			r.Bad(rule, construct, "src/operators.go", fmt.Sprintf("%s is typed %s, whose arm calls no walker: the document is not redacted", name, typ))
+		default:
+			r.OK(rule, construct, "src/operators.go", fmt.Sprintf("typed %s: its arm hands the document to %d walker call(s) with the vocabulary parameter constant false", typ, nCalls))
+		}
 	}
 }
